@@ -30,14 +30,29 @@ func allQueries(w *sim.World) []queryCall {
 	if l := m.AttesterList(); len(l) > 0 {
 		att = l[0]
 	}
-	for _, p := range m.Pairs {
+	// deterministic choice of arguments (never depend on Go map order)
+	var pks []string
+	for k := range m.Pairs {
+		pks = append(pks, k)
+	}
+	sort.Strings(pks)
+	if len(pks) > 0 {
+		p := m.Pairs[pks[0]]
 		dom, tok = p.Domain, "0x"+fmt.Sprintf("%x", p.Token)
-		break
 	}
 	var un types.QueryGetUsedNonceRequest
+	var us []sim.UsedSpec
 	for u := range m.Used {
-		un = types.QueryGetUsedNonceRequest{SourceDomain: u.Domain, Nonce: u.Nonce}
-		break
+		us = append(us, u)
+	}
+	sort.Slice(us, func(i, j int) bool {
+		if us[i].Domain != us[j].Domain {
+			return us[i].Domain < us[j].Domain
+		}
+		return us[i].Nonce < us[j].Nonce
+	})
+	if len(us) > 0 {
+		un = types.QueryGetUsedNonceRequest{SourceDomain: us[0].Domain, Nonce: us[0].Nonce}
 	}
 	pg := &query.PageRequest{Limit: 3, CountTotal: true}
 	return []queryCall{
